@@ -10,6 +10,7 @@ parameters, invocation-trace coverage, poison (stale read), ASan/UBSan lane.
 from __future__ import annotations
 
 import ctypes as ct
+import itertools
 import math
 
 import numpy as np
@@ -34,7 +35,7 @@ REQUIRED_MONITORS = ["I_equals_weighted_mean", "Fq_outputs_equal_weighted_means"
                      "refuses_too_many_dispersed", "trace_covers_mesh_once", "no_stale_result"]
 REQUIRED_BUCKETS = {
     "quick": ["dims:1", "dims:2", "dims:3", "dims:4", "dims:5", "mesh:2..99", "mesh:100", "mesh:101..199",
-              "mesh:200..400", "trunc:2", "trunc:1", "trunc:0", "trunc:1:parameter-without-loop-slot", "cutoff:0", "cutoff:1e-5", "cutoff:placed", "cutoff:tie",
+              "mesh:200..400", "reparameterised-model", "trunc:2", "trunc:1", "trunc:0", "trunc:1:parameter-without-loop-slot", "cutoff:0", "cutoff:1e-5", "cutoff:placed", "cutoff:tie",
               "dim:1d", "dim:2d", "have_Fq", "no_Fq", "Fq_in_2d", "hollow", "invalid_points>0", "loops>=3_cross_chunk",
               "lane:asan", "refusal"] + ["dist:" + d for d in sas.DIST],
 }
@@ -70,6 +71,11 @@ def gen_cases(tier, seed):
                     cases.append({"id": "%s/noslot-%s-%d" % (m, dim, j), "kind": "value", "model": m, "shape": 6,
                                   "noslot": [dim, j], "seed": seed, "tier": tier, "group": m, "lane": "plain", "cost": 1.0})
                 break
+    # models given other parameters (core.reparameterize), with dispersity on the new parameters
+    for j in range(len(REPARAMS)):
+        for kk in range(3 if tier == "quick" else 24):
+            cases.append({"id": "reparam/%d-%02d" % (j, kk), "kind": "reparam", "j": j, "k": kk, "seed": seed, "model": "reparam",
+                          "group": "rp%d" % j, "lane": "plain", "cost": 2.0})
     san = SAN_MODELS if tier == "quick" else models
     for m in san:
         for s in range(3 if tier == "quick" else 6):
@@ -155,8 +161,14 @@ def build_shape(i, case, rng):
     # rotate which table position is truncated
     tpar = None
     if trunc is not None:
-        vols = [p for p in cand if p.type == "volume" and np.isfinite(p.limits[0])
-                and pars[p.name] > max(p.limits[0], 0)]
+        # limits as declared in the model's parameter table (an element of a vector parameter has the vector's limits)
+        decl = declared_limits(i)
+        vols = [p for p in cand if p.type == "volume" and np.isfinite(decl.get(p.name, p.limits)[0])
+                and pars[p.name] > max(decl.get(p.name, p.limits)[0], 0)]
+        # truncation on an element of a vector parameter wherever the model has one (rotating with the shape index)
+        vec = [p for p in vols if p.name not in {q_.id for q_ in i.parameters.kernel_parameters if q_.length == 1}]
+        if vec and s % 2 == 0:
+            vols = vec
         if vols:
             tpar = vols[(s//18 + case["seed"] + len(i.id)) % len(vols)]
             if noslot:
@@ -197,7 +209,7 @@ def build_shape(i, case, rng):
         meta["valid_boundary"] = True
     if tpar is not None:
         v = pars[tpar.name]
-        lo = tpar.limits[0]
+        lo = declared_limits(i).get(tpar.name, tpar.limits)[0]
         if trunc == 2:
             sas.add_pd(pars, tpar, "gaussian", 3, 2.0, 1.0)      # {-v, v, 3v} -> {v, 3v}
         elif trunc == 1:
@@ -313,6 +325,17 @@ def run_value(case, rec):
             cutoff = c
     if meta["trunc"] == 2:
         rec.bucket("trunc:2")
+    # the mean is over the mesh points inside each parameter's declared limits: the limits are read from the model's
+    # own parameter table (every element of a vector parameter has the limits declared for the vector)
+    declared = declared_limits(i)
+    outside = []
+    for p_, m_ in zip(i.parameters.call_parameters[2:2 + i.parameters.npars], mesh[2:2 + i.parameters.npars]):
+        lim_ = declared.get(p_.name)
+        if lim_ is not None and len(m_[1]) > 1:
+            pts_ = np.asarray(m_[1], float)
+            if np.any(pts_ < lim_[0]) or np.any(pts_ > lim_[1]):
+                outside.append([p_.name, list(lim_), float(pts_.min()), float(pts_.max())])
+    rec.check("mesh_inside_declared_limits", not outside, {"model": name, "pars": pars, "outside": outside})
     # ---- the real call, traced
     tr = sas.TraceKernel(kernel)
     before = sas.poison_count()
@@ -440,6 +463,17 @@ def run_value(case, rec):
     kernel.release()
 
 
+def declared_limits(i):
+    out = {}
+    for p_ in i.parameters.kernel_parameters:
+        if p_.length > 1:
+            for j_ in range(1, p_.length + 1):
+                out[p_.id + str(j_)] = tuple(p_.limits)
+        else:
+            out[p_.id] = tuple(p_.limits)
+    return out
+
+
 def trunc_key(meta, st):
     if meta.get("has_empty"):
         return "C01/empty-dimension-not-background"
@@ -494,8 +528,96 @@ def run_refusal(case, rec):
         rec.skip("model has no more dispersible parameters than max_pd")
 
 
+REPARAMS = [
+    ("ellipsoid", [["vol", "Ang^3", 6.7e5, [0, np.inf], "volume", "particle volume"],
+                   ["aspect", "", 2.0, [0.1, 10.0], "volume", "polar:equatorial"]],
+     "re = cbrt(vol/(M_4PI_3*aspect))\nradius_equatorial = re\nradius_polar = aspect*re"),
+    ("hollow_cylinder", [["outer", "Ang", 40.0, [0, np.inf], "volume", "outer radius"],
+                         ["wall", "", 0.3, [0.0, 1.0], "volume", "wall fraction of the outer radius"]],
+     "t_ = wall*outer\nthickness = t_\nradius = outer - t_"),
+    ("core_shell_sphere", [["outer", "Ang", 80.0, [0, np.inf], "volume", "outer radius"],
+                           ["frac", "", 0.7, [0.0, 1.0], "volume", "core fraction of the radius"]],
+     "radius = frac*outer\nthickness = (1.0 - frac)*outer"),
+]
+
+
+def run_reparam(case, rec):
+    """A reparameterised model with dispersity on its new parameters: the returned values are the weighted means, over
+    the mesh in the new parameters, of the same model's monodisperse values at each mesh point."""
+    from sasmodels import core as sascore, direct_model
+    base, new, text = REPARAMS[case["j"]]
+    k = case["k"]
+    rng = core.rng_for(case["seed"], PROP, "reparam", case["j"], k)
+    i = sascore.reparameterize(sas.info(base), new, text, name="rtm01_%d" % case["j"])
+    model = sas.build(i)
+    pars = {"scale": float(rng.uniform(0.5, 2)), "background": float(rng.uniform(0, 0.1))}
+    for p_ in i.parameters.kernel_parameters:
+        if p_.type == "orientation":
+            pars[p_.name] = float(rng.uniform(-80, 80))
+        elif p_.type == "sld":
+            pars[p_.name] = float(rng.uniform(0.5, 6.0))
+        elif np.isfinite(p_.default) and p_.default != 0:
+            pars[p_.name] = float(min(max(p_.default*rng.uniform(0.8, 1.2), p_.limits[0]), p_.limits[1]))
+    dim = "2d" if (k % 3 == 2 and i.parameters.orientation_parameters) else "1d"
+    big = (k % 3 == 1)
+    newp = [i.parameters[n_[0]] for n_ in new]
+    for p_, n_ in zip(newp, ([11, 10] if big else [int(rng.integers(2, 7)), int(rng.integers(2, 5))])):
+        v_ = pars[p_.name]
+        room = min(v_ - p_.limits[0], p_.limits[1] - v_)/abs(v_)
+        w_ = min(float(rng.uniform(0.05, 0.2)), 0.9*room/2.0)
+        sas.add_pd(pars, p_, ["gaussian", "schulz", "uniform"][int(rng.integers(3))], n_, w_, 2.0)
+    size = max([abs(pars[p_.name])**(1.0/{"Ang": 1, "Ang^2": 2, "Ang^3": 3}[p_.units]) for p_ in i.parameters.kernel_parameters
+                if p_.units in ("Ang", "Ang^2", "Ang^3") and p_.name in pars] + [1.0])
+    qa = np.clip(np.exp(rng.uniform(math.log(0.2/size), math.log(6.0/size), 4)), 1e-6, 2.0)
+    q = [qa] if dim == "1d" else [qa*math.cos(0.6), qa*math.sin(0.6)]
+    kern = model.make_kernel(q)
+    cutoff = [0.0, 0.0, 1e-4][k % 3]
+    I = np.asarray(direct_model.call_kernel(kern, dict(pars), cutoff=cutoff), float)
+    modes = len(i.radius_effective_modes or [])
+    mode = int(rng.integers(0, modes + 1))
+    F = direct_model.call_Fq(kern, dict(pars, radius_effective_mode=mode), cutoff=cutoff)
+    mesh = direct_model.get_mesh(i, pars, dim=dim)
+    names = [p_.name for p_ in i.parameters.call_parameters]
+    cols = [(names[j_], [float(x_) for x_ in mesh[j_][1]], [float(x_) for x_ in mesh[j_][2]]) for j_ in range(len(names))
+            if len(mesh[j_][1]) > 1]
+    mono = {kk: vv for kk, vv in pars.items() if not kk.endswith(("_pd", "_pd_n", "_pd_nsigma", "_pd_type"))}
+    sw, swf2, swvs, swvf, swr = [], [[] for _ in qa], [], [], []
+    for combo in itertools.product(*[list(zip(c_[1], c_[2])) for c_ in cols]):
+        w = 1.0
+        pt = dict(mono, scale=1.0, background=0.0)
+        for (nm, _x, _w), (x_, w_) in zip(cols, combo):
+            pt[nm] = x_
+            w *= w_
+        if not (w > cutoff):
+            continue
+        _f1, f2, r_, vs_, ratio_ = direct_model.call_Fq(kern, dict(pt, radius_effective_mode=mode))
+        sw.append(w)
+        swvs.append(w*float(vs_))
+        swvf.append(w*float(vs_)*float(ratio_))
+        swr.append(w*float(r_))
+        for j_ in range(len(qa)):
+            swf2[j_].append(w*float(f2[j_]))
+    W = math.fsum(sw)
+    shell = math.fsum(swvs)/W
+    F2 = np.array([math.fsum(x_) for x_ in swf2])/W
+    exp = pars["scale"]*F2/shell + pars["background"]
+    ctx = {"base": base, "translation": text, "pars": pars, "dim": dim, "cutoff": cutoff, "mesh_points": len(sw), "mode": mode}
+    sc = float(np.max(np.abs(exp - pars["background"])))
+    ok = core.close(I, exp, 1e-9, 1e-12*sc)
+    rec.check("I_equals_weighted_mean", ok, None if ok else dict(ctx, observed=I, expected=exp, max_rel_err=core.maxrel(I, exp, 1e-12*sc)))
+    okF = core.close(np.asarray(F[1], float), F2, 1e-9, 1e-12*float(np.max(np.abs(F2)))) and core.close(float(F[3]), shell, 1e-10) \
+        and core.close(float(F[4]), math.fsum(swvf)/W/shell, 1e-10) and (not mode or core.close(float(F[2]), math.fsum(swr)/W, 1e-10))
+    rec.check("Fq_outputs_equal_weighted_means", okF,
+              None if okF else dict(ctx, observed=[F[1], F[2], F[3], F[4]], expected=[F2, math.fsum(swr)/W, shell, math.fsum(swvf)/W/shell]))
+    rec.bucket("reparameterised-model", "mesh:" + mesh_class(len(sw)), "dim:" + dim)
+    rec.set_shape(("reparam", case["j"], k, dim, len(sw)), nontrivial=len(sw) >= 2)
+    kern.release()
+
+
 def run_case(case, rec):
     sas.install_poison()
+    if case["kind"] == "reparam":
+        return run_reparam(case, rec)
     if case["kind"] == "value":
         run_value(case, rec)
     else:
